@@ -207,7 +207,8 @@ pub fn run(ctx: &mut Ctx) {
                 } else {
                     let want = sx / scale as i128; // trunc toward zero
                     let got = to_signed(*r, st);
-                    let diff = got - want;
+                    // (a garbage result may be anywhere in the i128 range)
+                    let diff = got.saturating_sub(want).max(-i128::MAX);
                     if diff.abs() <= 1 {
                         true
                     } else {
